@@ -88,5 +88,5 @@ BR19['cbmc_flags'] = []
 BR19['prop'] = 'C19'
 JOBS.append(dict(name='c19_batch_next_int32', wip=True, est_s=120, timeout=600, defines=['CQV_TYPE=1', 'CQV_NP_MAX=1', 'CQV_NL_MAX=2'],
                  bound='1 projected column of 1..2 INT32 file columns, row group open; rows unbounded; any subset of allocations fails',
-                 checks=['--bounds-check', '--pointer-check', '--div-by-zero-check', '--signed-overflow-check', '--undefined-shift-check', '--memory-leak-check'],
+                 checks=['--pointer-check', '--memory-leak-check'],
                  **BRJ, **BR19))
